@@ -1,8 +1,11 @@
 (* C16 -- Policy queries count only Allow statements and see every principal.
-   Statements only; every proof is [exact] of a lemma proved in Policy/PolicyFacts.v, Policy/StrSet.v or
-   Policy/PrincipalTable.v (the latter re-proved against the table regenerated from the live source). *)
+   Statements only; every proof is [exact] of a lemma proved in Policy/PolicyFacts.v, Policy/ResourceFacts.v,
+   Policy/StrSet.v or Policy/PrincipalTable.v (the latter re-proved against the table regenerated from the live
+   source).  The resource side (get_resource_list, resources_with, statements_with) and get_iam_actions are the
+   queries that do NOT look at the Effect: their theorems are in the second half of the file. *)
 From Coq Require Import List Bool NArith ZArith Sorted Permutation.
-From PV Require Import Base.Str Base.Value Policy.StrSet Policy.Policy Policy.PolicyFacts Policy.PrincipalTable.
+From PV Require Import Base.Str Base.Value Policy.StrSet Policy.Policy Policy.PolicyFacts Policy.ResourceFacts
+  Policy.PrincipalTable.
 From PVGen Require PrincipalFields.
 Import ListNotations.
 
@@ -50,7 +53,8 @@ Theorem C16_statement_validated :
   forall d s st, lookup K_Effect d = Some (VStr s) -> parse_stmt (VDict d) = Ok st ->
     lower s = lower (name (effect_of st)) /\
     principal st = get K_Principal d /\ not_principal st = get K_NotPrincipal d /\
-    action st = get K_Action d /\ not_action st = get K_NotAction d /\ sid st = get K_Sid d.
+    action st = get K_Action d /\ not_action st = get K_NotAction d /\ sid st = get K_Sid d /\
+    resource st = get K_Resource d /\ not_resource st = get K_NotResource d.
 Proof. exact parse_stmt_effect. Qed.
 Print Assumptions C16_statement_validated.
 
@@ -221,11 +225,265 @@ Theorem C16_single_vs_list :
 Proof. exact single_vs_list. Qed.
 Print Assumptions C16_single_vs_list.
 
+(* ---- Resources: get_resource_list / resources_with ------------------------------------------ *)
+
+(* [resource_named st r]: r is the string / a member of the list written under Resource or under NotResource
+   (PolicyFacts.field_names).  get_resource_list returns exactly those, function-object members included. *)
+Theorem C16_resource_list_complete :
+  forall (st : stmt) (r : value), In r (resource_list st) <-> resource_named st r.
+Proof. exact resource_list_complete. Qed.
+Print Assumptions C16_resource_list_complete.
+
+(* order: Resource before NotResource, each in input order; shape by shape: absent -> nothing, string -> itself,
+   list -> its members, a function object as the WHOLE element -> nothing (see C16_ex_resource_function_objects) *)
+Theorem C16_resource_list_order :
+  forall st : stmt, resource_list st = field_items (resource st) ++ field_items (not_resource st).
+Proof. exact resource_list_order. Qed.
+Print Assumptions C16_resource_list_order.
+
+Theorem C16_resource_shapes :
+  field_items VNull = [] /\
+  (forall s, field_items (VStr s) = [VStr s]) /\
+  (forall l, field_items (VList l) = l) /\
+  (forall d, field_items (VDict d) = []).
+Proof. exact field_items_shapes. Qed.
+Print Assumptions C16_resource_shapes.
+
+(* straight from the raw statement *)
+Theorem C16_resource_list_of_raw :
+  forall d st, parse_stmt (VDict d) = Ok st ->
+    resource_list st = field_items (get K_Resource d) ++ field_items (get K_NotResource d) /\
+    forall ia ina, action_list_of ia ina st =
+      (if ia then field_items (get K_Action d) else []) ++ (if ina then field_items (get K_NotAction d) else []).
+Proof. exact parse_stmt_resources. Qed.
+Print Assumptions C16_resource_list_of_raw.
+
+(* resources_with, for ANY compiled pattern: reported = enumerated, a string, and matched *)
+Theorem C16_resources_with :
+  forall (m : str -> bool) (st : stmt) (r : str),
+    In r (resources_with m st) <-> In (VStr r) (resource_list st) /\ m r = true.
+Proof. exact resources_with_spec. Qed.
+Print Assumptions C16_resources_with.
+
+Theorem C16_resources_with_value :
+  forall (m : str -> bool) (st : stmt) (v : value),
+    In v (map VStr (resources_with m st)) <->
+    In v (resource_list st) /\ exists r, v = VStr r /\ m r = true.
+Proof. exact resources_with_spec_value. Qed.
+Print Assumptions C16_resources_with_value.
+
+(* order and multiplicity are those of the enumeration: Resource matches, then NotResource matches *)
+Theorem C16_resources_with_order :
+  forall (m : str -> bool) (st : stmt),
+    resources_with m st =
+      filter m (strings (field_items (resource st))) ++ filter m (strings (field_items (not_resource st))).
+Proof. exact resources_with_order. Qed.
+Print Assumptions C16_resources_with_order.
+
+(* Sid, Effect, Principal, NotPrincipal, Action, NotAction play no part ... *)
+Theorem C16_resources_with_depends_on_resources_only :
+  forall (m : str -> bool) (st st' : stmt),
+    resource st = resource st' -> not_resource st = not_resource st' ->
+    resource_list st = resource_list st' /\ resources_with m st = resources_with m st'.
+Proof. exact resources_with_depends_on_resources_only. Qed.
+Print Assumptions C16_resources_with_depends_on_resources_only.
+
+Theorem C16_resources_with_independent :
+  forall (m : str -> bool) (st : stmt),
+    (forall e, resources_with m (set_effect e st) = resources_with m st) /\
+    (forall p np, resources_with m (set_principals p np st) = resources_with m st) /\
+    (forall a na, resources_with m (set_actions a na st) = resources_with m st) /\
+    (forall s, resources_with m (set_sid s st) = resources_with m st).
+Proof. exact resources_with_independent. Qed.
+Print Assumptions C16_resources_with_independent.
+
+(* ... and the resource elements play no part in the principal / action queries *)
+Theorem C16_other_queries_ignore_resources :
+  forall (r nr : value) (st : stmt),
+    principals (set_resources r nr st) = principals st /\
+    action_list (set_resources r nr st) = action_list st /\
+    (forall wl, non_whitelisted wl (set_resources r nr st) = non_whitelisted wl st) /\
+    (forall m, principals_with m (set_resources r nr st) = principals_with m st) /\
+    (forall m, actions_with m (set_resources r nr st) = actions_with m st) /\
+    effect_of (set_resources r nr st) = effect_of st.
+Proof. exact other_queries_ignore_resources. Qed.
+Print Assumptions C16_other_queries_ignore_resources.
+
+(* ---- get_action_list(include_action, include_not_action) ------------------------------------ *)
+
+Theorem C16_action_list_flags :
+  forall (ia ina : bool) (st : stmt) (a : value),
+    In a (action_list_of ia ina st) <->
+    (ia = true /\ field_names (action st) a) \/ (ina = true /\ field_names (not_action st) a).
+Proof. exact action_list_of_spec. Qed.
+Print Assumptions C16_action_list_flags.
+
+Theorem C16_action_list_flag_cases :
+  forall st : stmt,
+    action_list_of true true st = action_list st /\
+    action_list_of true false st = field_items (action st) /\
+    action_list_of false true st = field_items (not_action st) /\
+    action_list_of false false st = [].
+Proof. exact action_list_of_flags. Qed.
+Print Assumptions C16_action_list_flag_cases.
+
+(* ---- statements_with: no Effect gate --------------------------------------------------------- *)
+
+Theorem C16_statements_with_is_filter :
+  forall (m : str -> bool) (l : list stmt),
+    statements_with m l = filter (fun st => nonempty (resources_with m st)) l.
+Proof. exact statements_with_is_filter. Qed.
+Print Assumptions C16_statements_with_is_filter.
+
+(* membership: a statement of the document with at least one matching string resource -- the Effect does not occur *)
+Theorem C16_statements_with :
+  forall (m : str -> bool) (l : list stmt) (st : stmt),
+    In st (statements_with m l) <->
+    In st l /\ exists r, In (VStr r) (resource_list st) /\ m r = true.
+Proof. exact statements_with_spec. Qed.
+Print Assumptions C16_statements_with.
+
+(* document order is preserved: the answer is the sub-sequence of the document found at the (strictly increasing,
+   in range) positions statements_with_positions, and position p is reported exactly when the p-th statement matches *)
+Theorem C16_statements_with_order :
+  forall (m : str -> bool) (l : list stmt),
+    map (nth_error l) (statements_with_positions m l) = map Some (statements_with m l) /\
+    StronglySorted lt (statements_with_positions m l) /\
+    (forall p, In p (statements_with_positions m l) -> p < length l).
+Proof. exact statements_with_positions_spec. Qed.
+Print Assumptions C16_statements_with_order.
+
+Theorem C16_statements_with_positions :
+  forall (m : str -> bool) (l : list stmt) (p : nat),
+    In p (statements_with_positions m l) <->
+    exists st, nth_error l p = Some st /\ exists r, In (VStr r) (resource_list st) /\ m r = true.
+Proof. exact statements_with_positions_In. Qed.
+Print Assumptions C16_statements_with_positions.
+
+Theorem C16_statements_with_app :
+  forall (m : str -> bool) (l1 l2 : list stmt),
+    statements_with m (l1 ++ l2) = statements_with m l1 ++ statements_with m l2.
+Proof. exact statements_with_app. Qed.
+Print Assumptions C16_statements_with_app.
+
+Theorem C16_statements_with_idempotent :
+  forall (m : str -> bool) (l : list stmt), statements_with m (statements_with m l) = statements_with m l.
+Proof. exact statements_with_idem. Qed.
+Print Assumptions C16_statements_with_idempotent.
+
+(* rewriting every statement by an update that leaves Resource / NotResource alone selects the same positions and
+   returns the rewritten statements; in particular for any change of Effect, principals, actions or Sid *)
+Theorem C16_statements_with_depends_on_resources_only :
+  forall (m : str -> bool) (f : stmt -> stmt) (l : list stmt),
+    (forall st, resource (f st) = resource st /\ not_resource (f st) = not_resource st) ->
+    statements_with_positions m (map f l) = statements_with_positions m l /\
+    statements_with m (map f l) = map f (statements_with m l).
+Proof. exact statements_with_depends_on_resources_only. Qed.
+Print Assumptions C16_statements_with_depends_on_resources_only.
+
+Theorem C16_statements_with_independent :
+  forall (m : str -> bool) (l : list stmt),
+    (forall e, statements_with_positions m (map (set_effect e) l) = statements_with_positions m l) /\
+    (forall p np, statements_with_positions m (map (set_principals p np) l) = statements_with_positions m l) /\
+    (forall a na, statements_with_positions m (map (set_actions a na) l) = statements_with_positions m l) /\
+    (forall s, statements_with_positions m (map (set_sid s) l) = statements_with_positions m l).
+Proof. exact statements_with_independent. Qed.
+Print Assumptions C16_statements_with_independent.
+
+(* Deny statements ARE visible here (contrast C16_deny_invisible): inserting a statement anywhere adds it to the
+   answer exactly when it has a matching resource, whatever its Effect *)
+Theorem C16_statements_with_insert :
+  forall (m : str -> bool) (l1 l2 : list stmt) (d : stmt),
+    statements_with m (l1 ++ d :: l2) =
+      statements_with m l1 ++ (if nonempty (resources_with m d) then [d] else []) ++ statements_with m l2.
+Proof. exact statements_with_insert. Qed.
+Print Assumptions C16_statements_with_insert.
+
+(* the same Deny statement is reported by statements_with and by none of the Allow-gated statement queries *)
+Theorem C16_deny_visible_to_statements_with :
+  forall (m : str -> bool) (l : list stmt) (d : stmt) (r : str),
+    In d l -> effect_of d = Deny -> In (VStr r) (resource_list d) -> m r = true ->
+    In d (statements_with m l) /\ ~ In d (allowed l) /\ forall m', ~ In d (allowed_actions_with m' l).
+Proof. exact deny_seen_by_statements_with_only. Qed.
+Print Assumptions C16_deny_visible_to_statements_with.
+
+Theorem C16_statements_with_all_deny :
+  forall (m : str -> bool) (l : list stmt),
+    (forall st, In st l -> effect_of st = Deny) ->
+    statements_with_positions m l = statements_with_positions m (map (set_effect Allow) l) /\
+    (forall m', allowed_actions_with m' l = []).
+Proof. exact statements_with_all_deny. Qed.
+Print Assumptions C16_statements_with_all_deny.
+
+(* ---- get_iam_actions: no Effect gate either -------------------------------------------------- *)
+
+(* for ANY per-statement expansion function (C09 says what the expansion is) *)
+Theorem C16_iam_actions :
+  forall (expanded : stmt -> list str) (l : list stmt) (a : str),
+    In a (iam_actions expanded l) <->
+    exists st, In st l /\ In a (expanded st) /\ exists rest, a = K_iam_colon ++ rest.
+Proof. exact iam_actions_spec_prefix. Qed.
+Print Assumptions C16_iam_actions.
+
+(* difference=True: the catalogue entries spelled iam: in some letter case that the statements do not give *)
+Theorem C16_iam_actions_difference :
+  forall (expanded : stmt -> list str) (cat : list str) (l : list stmt) (a : str),
+    In a (iam_actions_difference expanded cat l) <->
+    In a cat /\ starts_with K_iam_colon (lower a) = true /\ ~ In a (iam_actions expanded l).
+Proof. exact iam_actions_difference_spec. Qed.
+Print Assumptions C16_iam_actions_difference.
+
+Theorem C16_iam_actions_canonical :
+  forall (expanded : stmt -> list str) (cat : list str) (l : list stmt),
+    StronglySorted str_lt (iam_actions expanded l) /\ NoDup (iam_actions expanded l) /\
+    StronglySorted str_lt (iam_actions_difference expanded cat l) /\ NoDup (iam_actions_difference expanded cat l).
+Proof. exact iam_actions_canonical. Qed.
+Print Assumptions C16_iam_actions_canonical.
+
+(* the two answers partition the iam: part of the catalogue when the expansion stays inside the catalogue *)
+Theorem C16_iam_actions_partition :
+  forall (expanded : stmt -> list str) (cat : list str) (l : list stmt) (a : str),
+    (forall st x, In st l -> In x (expanded st) -> In x cat) ->
+    In a cat -> starts_with K_iam_colon a = true -> starts_with K_iam_colon (lower a) = true ->
+    (In a (iam_actions expanded l) \/ In a (iam_actions_difference expanded cat l)) /\
+    ~ (In a (iam_actions expanded l) /\ In a (iam_actions_difference expanded cat l)).
+Proof. exact iam_actions_partition. Qed.
+Print Assumptions C16_iam_actions_partition.
+
+(* a Deny statement contributes like an Allow one *)
+Theorem C16_iam_actions_sees_deny :
+  forall (expanded : stmt -> list str) (l : list stmt) (d : stmt) (a : str),
+    In d l -> effect_of d = Deny -> In a (expanded d) -> starts_with K_iam_colon a = true ->
+    In a (iam_actions expanded l) /\ forall cat, ~ In a (iam_actions_difference expanded cat l).
+Proof. exact iam_actions_sees_deny. Qed.
+Print Assumptions C16_iam_actions_sees_deny.
+
+Theorem C16_iam_actions_effect_blind :
+  forall (expanded : stmt -> list str) (l : list stmt),
+    (forall e st, expanded (set_effect e st) = expanded st) ->
+    forall e cat, iam_actions expanded (map (set_effect e) l) = iam_actions expanded l /\
+                  iam_actions_difference expanded cat (map (set_effect e) l) = iam_actions_difference expanded cat l.
+Proof. exact iam_actions_effect_blind. Qed.
+Print Assumptions C16_iam_actions_effect_blind.
+
+Theorem C16_iam_actions_order_blind :
+  forall (expanded : stmt -> list str) (cat : list str) (l l' : list stmt),
+    Permutation l l' ->
+    iam_actions expanded l = iam_actions expanded l' /\
+    iam_actions_difference expanded cat l = iam_actions_difference expanded cat l'.
+Proof. exact iam_actions_order_blind. Qed.
+Print Assumptions C16_iam_actions_order_blind.
+
 (* ---- non-vacuity: concrete instances -------------------------------------------------------- *)
 Local Open Scope N_scope.
 
 Definition ex_s (e : effect) (p np : value) : stmt :=
-  {| sid := VNull; effect_of := e; principal := p; not_principal := np; action := VNull; not_action := VNull |}.
+  {| sid := VNull; effect_of := e; principal := p; not_principal := np; action := VNull; not_action := VNull;
+     resource := VNull; not_resource := VNull |}.
+(* a statement with Sid [n], Action a / NotAction na, Resource r / NotResource nr *)
+Definition ex_r (n : N) (e : effect) (a na r nr : value) : stmt :=
+  {| sid := VStr [n]; effect_of := e; principal := VNull; not_principal := VNull; action := a; not_action := na;
+     resource := r; not_resource := nr |}.
 
 (* "aLLoW" -> Allow, "DENY" -> Deny, "Permit" / "" / "Allow " -> ValidationError *)
 Example C16_ex_effect :
@@ -264,3 +522,66 @@ Example C16_ex_single :
   exists l, parse_doc (VDict [(K_Statement, VDict [(K_Effect, VStr [100;101;110;121])])]) = Ok l /\
             map effect_of l = [Deny].
 Proof. split; [vm_compute; reflexivity | eexists; split; vm_compute; reflexivity]. Qed.
+
+(* Resource ["a", {"Ref":"x"}, "b"], NotResource "c"  ->  a {Ref:x} b c ; the string queries report a b c;
+   a function object as the WHOLE Resource element contributes nothing (model_validate stores it as a FunctionDict,
+   which is neither a list nor a `(str, dict)` for get_resource_list) *)
+Example C16_ex_resource_function_objects :
+  let fn := VDict [([82;101;102], VStr [120])] in
+  let st := ex_r 49 Deny VNull VNull (VList [VStr [97]; fn; VStr [98]]) (VStr [99]) in
+  resource_list st = [VStr [97]; fn; VStr [98]; VStr [99]] /\
+  resources_with (fun _ => true) st = [[97]; [98]; [99]] /\
+  resources_with (fun s => str_eqb s [99]) st = [[99]] /\
+  resource_list (ex_r 50 Allow VNull VNull fn VNull) = [] /\
+  resource_list (ex_r 51 Allow VNull VNull fn (VList [fn])) = [fn].
+Proof. repeat split; vm_compute; reflexivity. Qed.
+
+(* Action "a", NotAction ["b","c"] under the four flag combinations *)
+Example C16_ex_action_list_flags :
+  let st := ex_r 49 Allow (VStr [97]) (VList [VStr [98]; VStr [99]]) VNull VNull in
+  action_list_of true true st = [VStr [97]; VStr [98]; VStr [99]] /\
+  action_list_of true false st = [VStr [97]] /\
+  action_list_of false true st = [VStr [98]; VStr [99]] /\
+  action_list_of false false st = [].
+Proof. repeat split; vm_compute; reflexivity. Qed.
+
+(* statements "1" Allow Resource "a" ; "2" Deny Resource ["b","a"] ; "3" Allow NotResource "b" ; "4" Deny (no resource):
+   pattern = "a" selects 1 and 2 (the Deny one included), pattern = "b" selects 2 and 3, in document order;
+   allowed_actions_with on the same document never returns the Deny statements *)
+Example C16_ex_statements_with :
+  let l := [ex_r 49 Allow (VStr [120]) VNull (VStr [97]) VNull;
+            ex_r 50 Deny (VStr [120]) VNull (VList [VStr [98]; VStr [97]]) VNull;
+            ex_r 51 Allow (VStr [120]) VNull VNull (VStr [98]);
+            ex_r 52 Deny (VStr [120]) VNull VNull VNull] in
+  map sid (statements_with (fun s => str_eqb s [97]) l) = [VStr [49]; VStr [50]] /\
+  statements_with_positions (fun s => str_eqb s [97]) l = [0; 1]%nat /\
+  map sid (statements_with (fun s => str_eqb s [98]) l) = [VStr [50]; VStr [51]] /\
+  statements_with_positions (fun s => str_eqb s [98]) l = [1; 2]%nat /\
+  statements_with (fun _ => false) l = [] /\
+  map sid (allowed_actions_with (fun _ => true) l) = [VStr [49]; VStr [51]].
+Proof. repeat split; vm_compute; reflexivity. Qed.
+
+(* get_iam_actions with a toy expansion (a statement expands to its literal Action strings) over the catalogue
+   iam:a, iam:b, s3:c, IAM:d : the Deny statement's iam:b is reported; the difference keeps iam:a and IAM:d *)
+Example C16_ex_iam_actions :
+  let expanded := fun st => strings (field_items (action st)) in
+  let cat := [[105;97;109;58;97]; [105;97;109;58;98]; [115;51;58;99]; [73;65;77;58;100]] in
+  let l := [ex_r 49 Deny (VStr [105;97;109;58;98]) VNull VNull VNull;
+            ex_r 50 Allow (VList [VStr [115;51;58;99]; VStr [105;97;109;58;98]]) VNull VNull VNull] in
+  iam_actions expanded l = [[105;97;109;58;98]] /\
+  iam_actions_difference expanded cat l = [[73;65;77;58;100]; [105;97;109;58;97]] /\
+  allowed_actions expanded l = [[115;51;58;99]; [105;97;109;58;98]] /\
+  iam_actions expanded [ex_r 49 Deny (VStr [105;97;109;58;98]) VNull VNull VNull] = [[105;97;109;58;98]] /\
+  allowed_actions expanded [ex_r 49 Deny (VStr [105;97;109;58;98]) VNull VNull VNull] = [].
+Proof. repeat split; vm_compute; reflexivity. Qed.
+
+(* a raw statement carrying every key is inside the domain of the correspondence, and parses *)
+Example C16_ex_raw_with_resources :
+  let raw := VDict [(K_Sid, VStr [49]); (K_Effect, VStr [100;69;78;89]); (K_Principal, VStr [42]);
+                    (K_Action, VStr [42]); (K_Resource, VList [VStr [97]; VDict [([82;101;102], VStr [120])]]);
+                    (K_NotResource, VDict [([82;101;102], VStr [121])])] in
+  wf_stmt_raw raw = true /\
+  exists st, parse_stmt raw = Ok st /\ effect_of st = Deny /\
+             resource_list st = [VStr [97]; VDict [([82;101;102], VStr [120])]] /\
+             resources_with (fun _ => true) st = [[97]].
+Proof. split; [vm_compute; reflexivity | eexists; repeat split; vm_compute; reflexivity]. Qed.
